@@ -308,7 +308,7 @@ def run(facts, rep, parts=('Q1', 'Q2', 'Q3', 'Q4', 'Q5', 'Q6')):
             rep.ok('E20.Q3-inverse', inst, 'Some(from(inv(norm z)) * conj z) / None')
         else:
             # a mismatch is a statement about inv only if its shapes stay within the vocabulary norm / conj / inv / from / mul
-            voc = all(re.match(r'^(Option::(Some\{0: |None\{\})|mul|from|inv|norm|conj|neg|arg1|Some|[0-9]|[&(){}., :])*$', a) for a, _ in shapes) and \
+            voc = all(re.match(r'^(Option::(Some\{0: |None\{\})|mul|from|inv|norm|conj|neg|clone|arg1|Some|[0-9]|[&(){}., :])*$', a) for a, _ in shapes) and \
                 all(all(re.match(r'^(discr|inv|norm|is_unit|arg1|[&(), ])*$', t) for t, _ in b) for _, b in shapes)
             if voc and shapes:
                 rep.violation('E20.Q3-inverse', inst, 'inv has the shapes %s' % sorted(shapes), where=bodies['inv'].where())
